@@ -129,6 +129,8 @@ def run_case(case, seed=0, optimize=True, executor="controlled", monitor=False, 
             obs.update(phase="BUILD", exc_type=type(e).__name__, exc_msg=str(e)[:300], exc_mro=[c.__name__ for c in type(e).__mro__])
             return obs
         obs["declared"] = [(tuple(o.shape), str(o.dtype), tuple(tuple(c) for c in o.chunks)) for o in outs]
+        pristine = [np.array(a, copy=True) for a in ns]
+        src_before = {label: {k: bytes(v.to_bytes()) for k, v in st._store_dict.items()} for label, st in world.stores.items() if label.startswith("src")}
         # PLAN + EXEC
         if executor == "controlled":
             ex = ControlledExecutor(world=world)
@@ -150,6 +152,9 @@ def run_case(case, seed=0, optimize=True, executor="controlled", monitor=False, 
             return obs
         got = as_tuple(got)
         obs["results"] = [(tuple(np.shape(g)), str(np.asarray(g).dtype)) for g in got]
+        obs["input_modified"] = [k for k, (a, b) in enumerate(zip(ns, pristine)) if not np.array_equal(a, b, equal_nan=True)]
+        obs["source_store_modified"] = [label for label, before in src_before.items()
+                                        if {k: bytes(v.to_bytes()) for k, v in world.stores[label]._store_dict.items()} != before]
         if monitor:
             obs["write_mismatch"] = [(str(w.task), w.path, w.region, w.vshape) for w in writes
                                      if w.region is not None and tuple(w.region) != tuple(w.vshape)]
